@@ -31,7 +31,7 @@ var namePairs = [][2]string{
 	{"v", "vs"}, {"side", "sidebar"}, {"x", "x-1"}, {"lots", "lot"}, {"o", "outer"}, {"s", "slot"},
 }
 
-type slotNames struct{ a, b, z string }
+type slotNames struct{ a, b, z, h, g string } // h, g: names handed over from the page to the layout
 
 func (n slotNames) of(placeholder string) string {
 	switch placeholder {
@@ -41,6 +41,10 @@ func (n slotNames) of(placeholder string) string {
 		return n.b
 	case "z":
 		return n.z
+	case "h":
+		return n.h
+	case "g":
+		return n.g
 	}
 	return placeholder
 }
@@ -59,6 +63,8 @@ func fixedNames(k int) slotNames {
 		}
 	}
 	n.z = distinctFrom(n.a+"s", n)
+	n.h = distinctFrom(nameVocabulary[(k*5+1)%len(nameVocabulary)], n)
+	n.g = distinctFrom(nameVocabulary[(k*11+2)%len(nameVocabulary)], n)
 	return n
 }
 
@@ -83,11 +89,13 @@ func genNames(t *rapid.T) slotNames {
 	default:
 		n.z = distinctFrom(n.b[:1], n)
 	}
+	n.h = distinctFrom(rapid.SampledFrom(nameVocabulary).Draw(t, "name-h"), n)
+	n.g = distinctFrom(rapid.SampledFrom(nameVocabulary).Draw(t, "name-g"), n)
 	return n
 }
 
 func distinctFrom(cand string, n slotNames) string {
-	for cand == n.a || cand == n.b || cand == "" || cand == "default" {
+	for cand == n.a || cand == n.b || cand == n.z || cand == n.h || cand == "" || cand == "default" {
 		cand += "q"
 	}
 	return cand
@@ -97,6 +105,11 @@ func distinctFrom(cand string, n slotNames) string {
 func (c *Case) rename(n slotNames) {
 	c.Page = renameNodes(c.Page, n)
 	c.Layout = renameNodes(c.Layout, n)
+	for i, h := range c.Hand {
+		h.Name = n.of(h.Name)
+		h.Kids = renameNodes(h.Kids, n)
+		c.Hand[i] = h
+	}
 	for k, cp := range c.Comps {
 		cp.Nodes = renameNodes(cp.Nodes, n)
 		c.Comps[k] = cp
